@@ -24,7 +24,7 @@ RULE = (
     "(acyclic anchor chains; cyclic ones are contradictory input, counted and excluded); plus class-level order([...]) "
     "for every permutation and order({...}) mapping overrides, and inheritance (spec in base / override in derived) for "
     "n<=3; plus classes of 3 fields where the anchor of an after / before is absent from some views (skip(serialization=True), "
-    "skip(deserialization=True), init=False, InitVar). Five views must be the same permutation (projected on the elements a view contains): keys of serialize() (also under PassThroughOptions(dataclasses=True), a passed-through instance being emitted in declaration order), "
+    "skip(deserialization=True), init=False, InitVar); plus order([...]) registered (then replaced) on a class every view of which is already warm. Five views must be the same permutation (projected on the elements a view contains): keys of serialize() (also under PassThroughOptions(dataclasses=True), a passed-through instance being emitted in declaration order), "
     "properties of serialization_schema and deserialization_schema, field order of the GraphQL object type; and equal to "
     "the reference order. distinct_nontrivial counts distinct (n, split, spec) classes."
 )
@@ -460,7 +460,41 @@ def run_absent_anchors(st: infra.Stats):
     apischema.cache.reset()
 
 
+def run_late_class_order(st: infra.Stats):
+    """a class-level order([...]) registered AFTER the class has been used once (every view warm): every view follows the new
+    order — for every permutation of 3 fields, and for a second registration replacing the first"""
+    from apischema import order
+
+    names = ["f0", "f1", "f2"]
+    perms = list(itertools.permutations(names))
+    src = "\n".join(f"@dataclass\nclass LO{k}:\n    f0: int = 0\n    f1: int = 0\n    f2: int = 0" for k in range(len(perms)))
+    mod = exec_source(PRELUDE + src)
+    for k, perm in enumerate(perms):
+        cname = f"LO{k}"
+        cls = getattr(mod, cname)
+        gql = gql_types_of(mod, [cname])
+        first = views(mod, cname, gql)
+        for step, p in (("first registration", perm), ("second registration", perm[::-1])):
+            order(list(p))(cls)
+            st.case("late_class_order", perm, step)
+            got = views(mod, cname, gql_types_of(mod, [cname]))
+            for view, g in got.items():
+                if g != list(p):
+                    st.violation({"signature": {"kind": "order", "view": view, "lost": False, "duplicated": False, "late_registration": step}, "what": f"{view} order {g} != {list(p)} after order({list(p)}) was registered on a class already used (views before: {first.get(view)})"[:400], "spec": repr(p), "n": [3, 0]})
+    import sys
+
+    sys.modules.pop(mod.__name__, None)
+    apischema.cache.reset()
+
+
 def work(tier, widx, nworkers, st, extra):
+    if widx == (3 % nworkers):
+        try:
+            run_late_class_order(st)
+        except Exception:
+            import traceback
+
+            st.violation({"signature": {"kind": "harness_error"}, "harness_error": True, "what": "late class order", "traceback": traceback.format_exc()[-2000:]})
     if widx == 0:
         run_class_level(st)
     if widx == (1 % nworkers):
